@@ -40,7 +40,7 @@ for pid in pids:
             for f in ("patch.diff", "demo.py", "notes.md"):
                 shutil.copy(os.path.join(src, f), dst)
             notes = open(os.path.join(src, "notes.md")).read()
-            meta = dict(id="%s-%s" % (pid, mk), property=pid, source="independent sub-agent (round 2) given only the property text and a scratch worktree",
+            meta = dict(id="%s-%s" % (pid, mk), property=pid, source="independent sub-agent given only the property text and a scratch worktree",
                         needs_to_manifest=notes[:1500],
                         confirmed=dict(base_commit=head, demo_on_clean_tree="exit 0 (PASS)", demo_with_change="exit 1 (FAIL)", test_suite_with_change=tests.stdout.strip(),
                                        commands=["git -C <worktree> apply patch.diff", "cd <worktree> && /venv/bin/python -m pytest -q -p no:cacheprovider",
